@@ -136,8 +136,8 @@ def truthy : Val → Bool
   | .rematch _ => true
 
 @[simp] theorem truthy_none : truthy .none = false := rfl
-@[simp] theorem truthy_bool (b : Bool) : truthy (.bool b) = b := rfl
-@[simp] theorem truthy_int (i : Int) : truthy (.int i) = (i != 0) := rfl
+@[simp] theorem truthy_bool (b : Bool) : truthy (.bool b) = b := by cases b <;> rfl
+@[simp] theorem truthy_int (i : Int) : truthy (.int i) = (i != 0) := by rw [truthy]
 @[simp] theorem truthy_str_nil : truthy (.str []) = false := rfl
 @[simp] theorem truthy_str_cons (c : Nat) (s : Str) : truthy (.str (c :: s)) = true := rfl
 @[simp] theorem truthy_list_nil : truthy (.list []) = false := rfl
